@@ -27,7 +27,7 @@ EXPLANATION = (
     "sets of the unknown/cancelled arms are empty; subclasses of Int32StringReceiver bound MAX_LENGTH and always "
     "drop the connection in lengthLimitExceeded."
 )
-SHARED = [('C10', ['R5', 'R6'], 'a request accepted by the broker client is eventually written or failed (connector hygiene, closed gate)')]
+SHARED = [('C10', ['R1'], 'requests kept across a reconnect stay in the ordered table that close() drains and fails'), ('C10', ['R5', 'R6'], 'a request accepted by the broker client is eventually written or failed (connector hygiene, closed gate)')]
 ASSUMPTIONS = ["Twisted Int32StringReceiver reassembles frames and calls lengthLimitExceeded for oversized prefixes",
                "struct.calcsize gives the wire size of big-endian standard formats"]
 BC = "brokerclient:_KafkaBrokerClient"
